@@ -4,7 +4,9 @@ TLC: the refinement PROPERTY Untraced of TraceStream.tla (the trace variables ar
 variables: every traced behaviour projects onto a Pipeline.tla behaviour).  Replay: each emitted
 behaviour is run untraced and traced (detail level by case hash) and must return / raise the same;
 it is traced again with a fresh Pipeline, twice with one reused Pipeline object, and once more after
-the worker has executed an arbitrary other history; all normalised traces must be equal."""
+the worker has executed an arbitrary other history; all normalised traces must be equal.  A few targets
+are also traced in a FRESH interpreter with and without a preceding history of cosmetic twins / near
+misses of the same configuration (process-wide caches keyed by less than what they store)."""
 from __future__ import annotations
 
 import copy
@@ -167,6 +169,93 @@ def hostile_payloads() -> List[tuple]:
     return viol
 
 
+# ---- history in a FRESH interpreter: trace(B | nothing ran before) = trace(B | A1, A2, ... ran before) ----------
+_T = {"t": "absent", "v": 0, "items": [], "bt": "", "d": 0}
+_CTX = {"a": {**_T, "t": "n", "v": 3}, "factor": {**_T, "t": "n", "v": 2}, "addend": _T, "value": _T, "b": _T, "w": _T}
+_NODATA = {"ty": "none", "v": 0, "items": []}
+
+
+def _sweep(proc: str, param: str, expr: str, values, extra=None):
+    n = {"processor": proc, "derive": {"parameter_sweep": {"parameters": {param: expr}, "variables": {"t": {"values": values}},
+                                                            "collection": "FloatDataCollection"}}}
+    if extra:
+        n.update(extra)
+        if "context_key" in extra:      # probe sweeps declare no collection
+            del n["derive"]["parameter_sweep"]["collection"]
+    return n
+
+
+def history_jobs() -> List[Dict[str, Any]]:
+    """(target B, histories): cosmetic twins of B (same meaning, other spelling of the sweep expression),
+    near misses (other values / other parameter), and an unrelated program."""
+    src = lambda e, vals=(1.0, 2.0): _sweep("FloatValueDataSource", "value", e, list(vals))
+    mul = lambda e, vals=(2.0, 3.0): _sweep("FloatMultiplyOperation", "factor", e, list(vals))
+    prb = lambda e: _sweep("VScaleProbe", "factor", e, [1.0, 2.0], {"context_key": "a"})
+    plain = [{"processor": "FloatValueDataSource", "parameters": {"value": 2.0}},
+             {"processor": "FloatMultiplyOperation", "parameters": {"factor": 3.0}},
+             {"processor": 'template:"x={a}":w'}]
+    plain2 = [{"processor": "FloatValueDataSource", "parameters": {"value": 5.0}},
+              {"processor": "FloatMultiplyOperation"}, {"processor": 'template:"y={a}":w'}]
+    jobs = []
+
+    def job(name, target, histories):
+        jobs.append({"name": name, "target": [target, _NODATA, _CTX],
+                     "history": [[h, _NODATA, _CTX] for h in histories]})
+    job("sweep-src:cosmetic-twin", [src("t*2")], [[src("2 * t")], [src("(2*t)")]])
+    job("sweep-src:near-miss", [src("2 * t")], [[src("2 * t", (1.0, 3.0))], [src("3 * t")], [src("2 * t", (1, 2))]])
+    job("sweep-op:cosmetic-twin", [src("t"), mul("1 + t")], [[src("t"), mul("t+1")], [src("(t)"), mul("t + 1")]])
+    job("sweep-probe:cosmetic-twin", [{"processor": "FloatValueDataSource", "parameters": {"value": 2.0}}, prb("t * 3")],
+        [[{"processor": "FloatValueDataSource", "parameters": {"value": 2.0}}, prb("3*t")]])
+    job("plain:near-miss", plain, [plain2, [src("2 * t")]])
+    job("plain:after-sweeps", plain2, [[src("t"), mul("t")], plain])
+    return jobs
+
+
+def history_pair(jobs: List[Dict[str, Any]]):
+    import json
+    import subprocess
+    import sys
+
+    out = []
+    for job in jobs:
+        res = []
+        for hist in ([], job["history"]):
+            for detail in job["details"]:
+                p = subprocess.run([sys.executable, "-m", "vharness.history_child"],
+                                   input=json.dumps({"history": hist, "target": job["target"], "detail": detail}),
+                                   capture_output=True, text=True, timeout=600, env=dict(os.environ, PYTHONDONTWRITEBYTECODE="1"))
+                if p.returncode != 0:
+                    return [("__machinery__", p.stderr[-600:], {})]
+                res.append(json.loads(p.stdout))
+        k = len(job["details"])
+        for i, detail in enumerate(job["details"]):
+            fresh, after = res[i], res[k + i]
+            if not fresh["records"]:
+                return [("__machinery__", f"{job['name']}: fresh run produced no trace records", {})]
+            if fresh != after:
+                out.append((f"reproducible:fresh-process-history:{job['name']}",
+                            f"{job['name']} detail={detail}: the trace of {job['target'][0]} in a fresh interpreter differs from its trace after "
+                            f"{[h[0] for h in job['history']]} ran in the same interpreter, at {first_diff(fresh['records'], after['records'])}",
+                            {"job": job}))
+                break
+    return out
+
+
+def fresh_history_checks(run: core.Run, tier: str) -> None:
+    jobs = history_jobs()
+    for j in jobs:
+        j["details"] = ["hash", "all"] if tier == "quick" else list(DETAILS)
+    n = 0
+    for res in pmap(history_pair, jobs, chunk=1):
+        for key, what, rep in res:
+            if key == "__machinery__":
+                raise core.MachineryError(f"history child failed: {what}")
+            run.violation(key, what, rep)
+        n += 1
+    run.extra["fresh_process_history_jobs"] = n
+    run.evaluations += n
+
+
 def _replay(run: core.Run, cfg: str, **kw):
     res, path = tlc.emit_cases("MC_TraceStream", cfg, **kw)
     run.add_tlc(res, count_states=False)
@@ -192,6 +281,11 @@ def _replay(run: core.Run, cfg: str, **kw):
 def replay_one(payload):
     from .. import seams
     seams.setup()
+    if "job" in payload:
+        r = history_pair([payload["job"]])
+        for key, what, _ in r:
+            print(f"VIOLATION property=C10 replay=<given>\n  {key}\n  {what}")
+        return 1 if r else 0
     r = replay_chunk([payload["case"]] * 2)
     for key, what, _ in r["viol"]:
         print(f"VIOLATION property=C10 replay=<given>\n  {key}\n  {what}")
@@ -208,6 +302,7 @@ def check(tier: str) -> int:
     seed = core.seed()
     for key, what, rep in hostile_payloads():
         run.violation(key, what, rep)
+    fresh_history_checks(run, tier)
     _replay(run, "TraceStream.full1.emit")
     if tier == "quick":
         _replay(run, "TraceStream.sim.emit", simulate="num=1200", depth=24, seed=seed + 9)
